@@ -156,6 +156,11 @@ def handle (cmd : String) (args : List Int) : Option String :=
       let (x, y, z, ef) ← run (do
         let x ← floats; let y ← floats; let z ← floats; let ef ← efP; pure (x, y, z, ef)) args
       pure (encFloats (oracleFaceXYZ (faceV3 x y z) ef))
+  | "C16.oracle.node.xyz" => do
+      let (x, y, z, en) ← run (do
+        let x ← floats; let y ← floats; let z ← floats; let en ← enP; pure (x, y, z, en)) args
+      let c := nodeV3 x y z
+      pure (encFloats (en.map (fun p => oracleAngle Float.sqrt Float.atan2 (c p.1) (c p.2))))
   | "C16.oracle.face" => do
       let (lon, lat, ef) ← run (do let lon ← floats; let lat ← floats; let ef ← efP; pure (lon, lat, ef)) args
       pure (encFloats (ef.map (fun p => match p.2 with
